@@ -101,3 +101,47 @@ impl Numeral {
         }
     }
 }
+
+/// Long documents for the whole-run procedures of C02 and C10: a prefix of W ordinary words (no
+/// punctuation) followed by a short tail in which small numbers are linked across punctuation.
+/// Sizes sit just above powers of two and round decimal sizes (in tokens), where an implementation
+/// that processes a document in chunks would cut.
+pub fn long_doc_sizes(thorough: bool) -> Vec<usize> {
+    let mut v = vec![1usize << 10, 1 << 12, 1 << 13, 1 << 14, 1 << 15, 1 << 16, 1_000, 10_000, 50_000];
+    if thorough {
+        v.extend([1usize << 17, 1 << 18, 100_000, 1 << 20]);
+    }
+    v
+}
+pub fn long_doc_tails(lang: &str) -> Vec<String> {
+    use crate::choose::Canon;
+    let d = |n: u64| -> String {
+        if lang == "de" && n == 1 {
+            "eins".to_string()
+        } else {
+            crate::spell::cardinal(lang, n, &mut Canon).join(" ")
+        }
+    };
+    let v = crate::gen::vocab_of(lang);
+    let w = v.fillers[0];
+    vec![
+        format!("{}, {}, {}, {}!", d(1), d(2), d(3), w),
+        format!("{}... {}", d(4), d(5)),
+        format!("{} … {} ; {}", d(6), d(7), d(8)),
+        format!("{} {} {}", d(2), v.linking[0], d(3)),
+        format!("{}. {}, {} {} {}", w, d(5), d(6), w, d(7)),
+        format!("{} {} {}", d(21), w, d(9)),
+    ]
+}
+pub fn long_doc(lang: &str, tokens: usize, slack: usize, tail: &str) -> (String, String) {
+    let v = crate::gen::vocab_of(lang);
+    let w = v.fillers[0];
+    // each word contributes two tokens (word, space)
+    let words = tokens / 2 + slack;
+    let mut prefix = String::with_capacity(words * (w.len() + 1));
+    for _ in 0..words {
+        prefix.push_str(w);
+        prefix.push(' ');
+    }
+    (prefix, tail.to_string())
+}
